@@ -207,8 +207,6 @@ impl Screen {
             return; // No changes.
         }
 
-        self.dirty.extend(0..lines);
-
         // The scrolling region is reset to the whole screen. Do it before
         // dropping lines: delete_lines is confined to (and refused outside)
         // the region.
@@ -233,6 +231,10 @@ impl Screen {
         // The cursor restored above was clamped against the old size.
         self.ensure_hbounds();
         self.ensure_vbounds(None);
+
+        // Every row of the resized screen is dirty, and nothing else is.
+        self.dirty.clear();
+        self.dirty.extend(0..lines);
     }
 
     // Ensure the cursor is within horizontal screen bounds."""
